@@ -10,21 +10,41 @@ no longer compiles (or the extractor refuses the new shape), whether or not a te
 
 Correspondence Rust -> generated -> model:
   fq2.rs   mul_by_nonresidue norm zero one is_zero square double negate add_assign sub_assign mul_assign
-           inverse frobenius_map                                                     -> `PP.Fq2.*`
+           inverse frobenius_map, SqrtField::{legendre, sqrt}, Signum0::sgn0, Ord::cmp -> `PP.Fq2.*`
+  fq.rs    Signum0::sgn0                                                             -> `Zp.sgn0`
+  signum.rs  BitXor for Sgn0Result, Signum0::negate_if (default method)              -> `PP.Sgn0.xor`, `PP.negateIf`
   fq6.rs   mul_by_nonresidue mul_by_1 mul_by_01 zero one is_zero double negate add_assign sub_assign
            frobenius_map square mul_assign inverse                                   -> `PP.Fq6.*`
   fq12.rs  conjugate mul_by_014 zero one is_zero double negate add_assign sub_assign frobenius_map
            square mul_assign inverse                                                 -> `PP.Fq12.*`
   ec/mod.rs (macro `curve_impl!`, generic in the coefficient field)
-           $affine: zero is_zero negate is_on_curve, From<$affine> for $projective   -> `PP.Aff.*`
+           $affine: zero is_zero negate is_on_curve, From<$affine> for $projective, mul_bits, mul,
+           get_point_from_x, is_in_correct_subgroup_assuming_on_curve                -> `PP.Aff.*`
            $projective: zero is_zero is_normalized PartialEq::eq double add_assign add_assign_mixed
-           negate, From<$projective> for $affine                                     -> `PP.Jac.*`
+           negate, From<$projective> for $affine, mul_assign                         -> `PP.Jac.*`
+  lib.rs   CurveProjective::{sub_assign, sub_assign_mixed} (default methods)         -> `PP.Jac.sub`, `PP.Jac.subMixed`
+  ec/g1.rs, ec/g2.rs  SubgroupCheck::in_subgroup                                     -> `PP.Aff.inSubgroup`
   osswu_map/mod.rs  osswu_help                                                       -> `PP.osswuHelp`
+  osswu_map/g1.rs, g2.rs  OSSWUMap::osswu_map                                        -> `PP.osswuG1`, `PP.osswuG2`
+  cofactor.rs  ClearH::clear_h for G1, G2                                            -> `PP.clearHG1`, `PP.clearHG2`
+  map_to_curve.rs  map_to_curve, map2_to_curve (generic over the traits)             -> `PP.mapToCurveG1` ... `PP.map2ToCurveG2`
   mod.rs   doubling_step addition_step ell exp_by_x final_exponentiation             -> `PP.doublingStep` ...
 
 Differences of representation that are visible in the statements: `$affine::is_zero` is inlined in
 the model (`.infinity`); the `u64` argument of `exp_by_x` is a `UInt64` in the generated code and a
-`Nat` (reduced mod 2^64 inside) in the model.
+`Nat` (reduced mod 2^64 inside) in the model; `Ord for Fq2` returns an `Ordering` where the model
+only has the derived `<` (`Fq2.lt`); associated constants of the macro (`get_coeff_b()`,
+`$scalarfield::char()`) are leading parameters of the generated definitions, instantiated in the
+statements (`Gen.r`); `map_to_curve` / `map2_to_curve` are generic over traits, their generated
+definitions take the trait methods as parameters (`osswu_map` Option-valued: `none` = panic) and the
+statements instantiate them with the generated methods of G1 / G2 and, for `isogeny_map`
+(`eval_iso`, NOT translated), with the model's `iso11` / `iso3`.
+
+Primitives of the base field that are derive-generated (not in /repo) and therefore taken from the
+model: `Fq::sqrt`, `Fq::legendre` (`SqrtOps`), `Fq::cmp` (`compare` of the canonical integers),
+`into_repr().0[0] & 1 == 1` (translated as `v % 2 = 1`), `BitIterator::new(repr)` (`bitsMSB (limbsOf 4 ·)`).
+The addition chains called by `osswu_map` and `clear_h` are extracted separately (PP/Gen/Chains.lean)
+and enter as the model's `chainPm3div4`, `chainP2m9div16`, `chainZ`, `chainH2Eff`.
 -/
 import PP.Proofs.GenArith
 
@@ -46,6 +66,15 @@ theorem Fq2_sub : A.Fq2.sub = PP.Fq2.sub := Fq2_sub_eq
 theorem Fq2_mul : A.Fq2.mul = PP.Fq2.mul := Fq2_mul_eq
 theorem Fq2_inverse : A.Fq2.inverse = PP.Fq2.inverse := Fq2_inverse_eq
 theorem Fq2_frobeniusMap : A.Fq2.frobeniusMap = PP.Fq2.frobeniusMap := Fq2_frobeniusMap_eq
+theorem Fq2_legendre : A.Fq2.legendre = PP.Fq2.legendre := Fq2_legendre_eq
+theorem Fq2_sqrt : A.Fq2.sqrt = PP.Fq2.sqrt := Fq2_sqrt_eq
+theorem Fq2_sgn0 : A.Fq2.sgn0 = PP.Fq2.sgn0 := Fq2_sgn0_eq
+theorem Fq2_cmp (a b : Fq2) : PP.Fq2.lt a b = decide (A.Fq2.cmp a b = Ordering.lt) := Fq2_cmp_lt a b
+
+/-! ## `Signum0` (src/bls12_381/fq.rs, src/signum.rs) -/
+theorem Fq_sgn0 : A.Fq.sgn0 = (Zp.sgn0 : Fq → Sgn0) := Fq_sgn0_eq
+theorem Sgn0_xor : A.Sgn0.xor = PP.Sgn0.xor := Sgn0_xor_eq
+theorem negateIf {F : Type} [Neg F] : (A.negateIf : F → Sgn0 → F) = PP.negateIf := negateIf_eq
 
 /-! ## Fq6 (src/bls12_381/fq6.rs) -/
 theorem Fq6_mulByNonresidue : A.Fq6.mulByNonresidue = PP.Fq6.mulByNonresidue := Fq6_mulByNonresidue_eq
@@ -98,11 +127,44 @@ theorem Aff_toJac : (A.Aff.toJac : Aff F → Jac F) = PP.Aff.toJac := Aff_toJac_
 theorem Jac_toAffine : (A.Jac.toAffine : Jac F → Option (Aff F)) = PP.Jac.toAffine := Jac_toAffine_eq
 theorem Aff_neg : (A.Aff.neg : Aff F → Aff F) = PP.Aff.neg := Aff_neg_eq
 theorem Jac_neg : (A.Jac.neg : Jac F → Jac F) = PP.Jac.neg := Jac_neg_eq
+theorem Aff_mulBits : (A.Aff.mulBits : Aff F → List Bool → Jac F) = PP.Aff.mulBits := Aff_mulBits_eq
+theorem Aff_mul : (A.Aff.mul : Aff F → Nat → Jac F) = PP.Aff.mul := Aff_mul_eq
+theorem Jac_mulAssign : (A.Jac.mulAssign : Jac F → Nat → Jac F) = PP.Jac.mulAssign := Jac_mulAssign_eq
+theorem Aff_getPointFromX [SqrtOps F] :
+    (A.Aff.getPointFromX : F → F → Bool → Option (Aff F)) = PP.Aff.getPointFromX := Aff_getPointFromX_eq
+theorem Aff_isInCorrectSubgroupAssumingOnCurve :
+    (A.Aff.isInCorrectSubgroupAssumingOnCurve Gen.r : Aff F → Bool) = PP.Aff.inSubgroupAssumingOnCurve :=
+  Aff_isInCorrectSubgroupAssumingOnCurve_eq
+/-- src/lib.rs, default methods of `trait CurveProjective` -/
+theorem Jac_sub : (A.Jac.sub : Jac F → Jac F → Jac F) = PP.Jac.sub := Jac_sub_eq
+theorem Jac_subMixed : (A.Jac.subMixed : Jac F → Aff F → Jac F) = PP.Jac.subMixed := Jac_subMixed_eq
 
 /-! ## `osswu_help` (src/bls12_381/osswu_map/mod.rs) -/
 theorem osswuHelp : (A.osswuHelp : F → F → F → F → OsswuHelp F) = PP.osswuHelp := osswuHelp_eq
 
 end
+
+/-! ## `SubgroupCheck` (ec/g1.rs, ec/g2.rs), `osswu_map` (osswu_map/g1.rs, g2.rs), `clear_h` (cofactor.rs),
+    `map_to_curve` / `map2_to_curve` (src/map_to_curve.rs) -/
+theorem G1Affine_inSubgroup (b : Fq) : A.G1Affine.inSubgroup b Gen.r = PP.Aff.inSubgroup b := G1Affine_inSubgroup_eq b
+theorem G2Affine_inSubgroup (b : Fq2) : A.G2Affine.inSubgroup b Gen.r = PP.Aff.inSubgroup b := G2Affine_inSubgroup_eq b
+theorem G1_osswuMap : A.G1.osswuMap = PP.osswuG1 := G1_osswuMap_eq
+theorem G2_osswuMap : A.G2.osswuMap = PP.osswuG2 := G2_osswuMap_eq
+theorem G1_clearH : A.G1.clearH = PP.clearHG1 := G1_clearH_eq
+theorem G2_clearH : A.G2.clearH = PP.clearHG2 := G2_clearH_eq
+theorem mapToCurve_G1 :
+    A.mapToCurve (osswu_map := fun u => some (A.G1.osswuMap u)) (isogeny_map := PP.iso11) (clear_h := A.G1.clearH)
+      = fun u => some (PP.mapToCurveG1 u) := mapToCurve_G1_eq
+theorem map2ToCurve_G1 :
+    A.map2ToCurve (osswu_map := fun u => some (A.G1.osswuMap u)) (isogeny_map := PP.iso11)
+        (add_assign := A.Jac.add) (clear_h := A.G1.clearH)
+      = fun u0 u1 => some (PP.map2ToCurveG1 u0 u1) := map2ToCurve_G1_eq
+theorem mapToCurve_G2 :
+    A.mapToCurve (osswu_map := A.G2.osswuMap) (isogeny_map := PP.iso3) (clear_h := A.G2.clearH) = PP.mapToCurveG2 :=
+  mapToCurve_G2_eq
+theorem map2ToCurve_G2 :
+    A.map2ToCurve (osswu_map := A.G2.osswuMap) (isogeny_map := PP.iso3) (add_assign := A.Jac.add)
+        (clear_h := A.G2.clearH) = PP.map2ToCurveG2 := map2ToCurve_G2_eq
 
 /-! ## pairing (src/bls12_381/mod.rs) -/
 theorem doublingStep : A.doublingStep = PP.doublingStep := doublingStep_eq
